@@ -37,9 +37,25 @@ def payloads(rng, tier):
         k = rng.randint(1, kmax)
         dens = rng.choice([0.0, 0.02, 0.3, 0.6, 0.9, 1.0])
         yield "find_user", {"k": k, "table": [1 if rng.random() < dens else 0 for _ in range(4 ** k)]}
+    # filters that accept exactly 1, 2 or 3 k-mers, at every order up to 7 ("raises ValueError exactly when it accepts none")
+    for k in range(1, {"quick": 7, "thorough": 8, "search": 5}[tier] + 1):
+        for cnt in (1, 2, 3):
+            table = [0] * (4 ** k)
+            for v in rng.sample(range(4 ** k), min(cnt, 4 ** k)):
+                table[v] = 1
+            yield "find_user", {"k": k, "table": table}
+    for k in range(1, {"quick": 6, "thorough": 7, "search": 4}[tier] + 1):
+        yield "find_local", {"cfg": {"k": k, "run": 1, "gc": [0, 0], "motifs": None}}
+        yield "find_local", {"cfg": {"k": k, "run": 1, "gc": [1, 1], "motifs": None}}
     for _ in range(n):
         k = rng.randint(1, kmax)
         yield "find_local", {"cfg": gen.local_cfg(rng, k)}
+    for _ in range({"quick": 150, "thorough": 1500, "search": 60}[tier]):
+        k = rng.randint(2, min(kmax, 4))
+        a = gen.local_cfg(rng, k)
+        if a["motifs"] is None or rng.random() < 0.5:
+            a["motifs"] = ["".join(rng.choice(NUC) for _ in range(rng.randint(2, k)))]
+        yield "find_local_pair", {"first": a, "cfg": gen.related_cfg(rng, a)}
     for _ in range(n * 2):
         k = rng.randint(1, kmax)
         yield "valid_graph", {"k": k, "mask": gen.random_mask(rng, k, rng.choice([0.0, 0.05, 0.3, 0.6, 0.9, 1.0])),
@@ -58,20 +74,26 @@ def build(stream, p):
                              lambda r: [[int(x) for x in r]])
         want = table
         filt = lambda s: bool(table[sum(NUC.index(c) * 4 ** (k - 1 - i) for i, c in enumerate(s))])
-    elif stream == "find_local":
+    elif stream in ("find_local", "find_local_pair"):
         cfg = p["cfg"]
         k = cfg["k"]
         h, ms = gen.enc_cfg(cfg)
         call = enc_call(43, k, h, ms)
-        impl = lambda: guard(lambda: dsw.find_vertices(observed_length=k, bio_filter=gen.make_filter(cfg)),
-                             lambda r: [[int(x) for x in r]])
+        def run_local():
+            if stream == "find_local_pair":
+                try:        # an earlier call with a closely related filter must leave nothing behind
+                    dsw.find_vertices(observed_length=k, bio_filter=gen.make_filter(p["first"]))
+                except ValueError:
+                    pass
+            return dsw.find_vertices(observed_length=k, bio_filter=gen.make_filter(cfg))
+        impl = lambda: guard(run_local, lambda r: [[int(x) for x in r]])
         f = None
         try:
             f = gen.make_filter(cfg)
         except ValueError:
             pass
         filt = (lambda s: f.valid(s)) if f is not None else None
-    if stream in ("find_user", "find_local"):
+    if stream in ("find_user", "find_local", "find_local_pair"):
         def oracle(ans, raw):
             if filt is None:
                 return None
